@@ -133,6 +133,15 @@ def rule_extend(ctx):
                               f'{c} is written from data read across a suspension without re-checking the truncation epoch: a truncate() '
                               'that ran on the worker thread during the read is undone and orphaned hashes re-enter the cache ('
                               + '; '.join(f'{cfg.label(x)}: {r}' for x, r in bad[:2]) + ')', loc=ctx.loc(f, s))
+    # readers: a branch computed from level/length read across a suspension is returned only under the epoch re-check
+    bar = ctx.func('merkle', 'MerkleCache.branch_and_root')
+    d = fr.dirty(bar)
+    ctx.check(d is None, 'C11.EXTEND', ctx.key(bar, None, 'answer validated against the truncation epoch'),
+              'branch_and_root returns only results computed without an intervening truncation (epoch re-checked after the last suspension)',
+              f'branch_and_root can return a result computed across a suspension without re-checking the truncation epoch ({d}): a '
+              'truncate() on the worker thread in between cuts the level it then reads, and the branch folds to a root of no chain',
+              loc=ctx.loc(bar, bar.node))
+    n += 1
     tr = ctx.func('merkle', 'MerkleCache.truncate')
     n += rule_epoch_bumped(ctx, tr, 'self.truncations', 'C11.EXTEND')
     # commit and truncation serialised by the same lock (truncate runs on another thread)
